@@ -257,6 +257,44 @@ def import_order_cases(ctx):
     IO.compare(ctx, res, "import-order-dependence", "JWE round trip")
 
 
+def same_object_twice(ctx, rng):
+    """one JSON encryption object encrypted twice (a retry, a second addressee list ...): both results are tokens of their own - the first one
+    still decrypts after the second call, and so does the second"""
+    j = J.load()
+    J.register_drafts()
+    pt = b"c04 twice"
+    for ai, alg in enumerate(["A128KW", "A128GCMKW", "A256GCMKW", "RSA-OAEP", "ECDH-ES+A128KW", "PBES2-HS256+A128KW", "dir", "ECDH-ES"]):
+        for form in ("flattened", "general"):
+            ctx.ev()
+            enc = g.RFC_ENCS[(ai + len(form)) % len(g.RFC_ENCS)]
+            rk, _ = g.keys_for(alg, enc, "P-256")
+            allow = [alg, enc]
+            cls = j.jwe.FlattenedJSONEncryption if form == "flattened" else j.jwe.GeneralJSONEncryption
+            obj = cls({"enc": enc}, pt, {"jku": "https://example.com/k"} if ai % 2 else None, b"aad" if ai % 3 == 0 else None)
+            obj.add_recipient({"alg": alg}, j.key(gen.public_jwk(rk)))
+            t1 = call(j.jwe.encrypt_json, obj, None, algorithms=allow)
+            if not t1.ok:
+                continue
+            snapshot = copy.deepcopy(t1.value)
+            t2 = call(j.jwe.encrypt_json, obj, None, algorithms=allow)
+            ctx.count("same_object_twice")
+            ctx.nontrivial(("twice", alg, form))
+            ctx.cell("twice", alg, form)
+            case = {"alg": alg, "enc": enc, "form": form, "first_token_as_returned": snapshot}
+            if t1.value != snapshot:
+                changed = sorted(k for k in set(snapshot) | set(t1.value) if snapshot.get(k) != t1.value.get(k))
+                ctx.violation("returned-token-changed-by-later-call", f"the token returned by the first encrypt_json ({alg}, {form}) changed in members {changed} when the same "
+                              f"object was encrypted again", case)
+            for label, tok in (("first", t1.value), ("second", t2.value if t2.ok else None)):
+                if tok is None:
+                    ctx.violation(f"second-encryption-fails:{t2.etype}", f"encrypting the same object again failed ({alg}, {form}): {t2.exc!r}", case)
+                    continue
+                d = call(j.jwe.decrypt_json, copy.deepcopy(tok), j.key(rk), algorithms=allow)
+                if not d.ok or d.value.plaintext != pt:
+                    ctx.violation(f"token-of-{label}-call-does-not-decrypt", f"after encrypting one object twice ({alg}, {form}) the token of the {label} call does not decrypt: "
+                                  f"{d.exc!r}", case)
+
+
 def forbidden_cells(ctx, rng):
     """combinations the specifications forbid must be refused at encryption time"""
     j = J.load()
@@ -349,6 +387,8 @@ def run_shard(ctx):
         forbidden_cells(ctx, rng)
     if ctx.shard == 1:
         reencrypt_cases(ctx, rng)
+    if ctx.shard == 3:
+        same_object_twice(ctx, rng)
     if ctx.shard == 2:
         scale_cases(ctx, rng)
     if ctx.shard == 4:
